@@ -55,14 +55,14 @@ var props = []*prop{
 		Variants: []variant{{Scenario: "c07", Weight: 1}},
 		Real:     []string{"tars/transport: TarsServer + tcpHandler receive loop and TarsClient receive loop (instrumented)", "tars/protocol.TarsRequest / TarsProtocol.ParsePackage and SetMaxPackageLength (real)", "tars/util/gpool (server worker pool in some runs)"},
 		Stub:     append([]string{netStub, "protocol layer above the framing -> recording ServerProtocol.Invoke / ClientProtocol.Recv", "peers -> scripted raw writers"}, commonStub...),
-		Rule:     "one case = one simulated run: 1-3 connections into a real TarsServer and 1-2 real TarsClients, each fed a tape-drawn sequence of 1-12 frames (lengths 4, 5, small, around 4096 and 8192, max-1, max) optionally followed by an illegal length prefix (0-3, max+1, huge) and further frames; the stream is written in tape-drawn chunks (single bytes, cuts inside the prefix, large chunks, pauses) and read in tape-drawn fragments; maximum package length 64/1000/4096/10MiB, server pool 0/1/3; distinct = distinct (event-log hash, switch trace hash); non-trivial = at least one preemption, stall or fired fault",
+		Rule:     "one case = one simulated run: 1-3 connections into a real TarsServer and 1-2 real TarsClients, each fed a tape-drawn sequence of 1-12 frames (lengths 4, 5, small, around 4096 and 8192, max-1, max) optionally followed by an illegal length prefix (0-3, max+1, huge) and further frames; the stream is written in tape-drawn chunks (single bytes, cuts inside the prefix, large chunks, pauses) and read in tape-drawn fragments; maximum package length 64/1000/4096/10MiB, server pool 0/1/3; in the echoing-server variant the client reads slowly so that the server's write time-out strikes inside a response; distinct = distinct (event-log hash, switch trace hash); non-trivial = at least one preemption, stall or fired fault",
 	},
 	{
 		ID: "C08", Binary: "simcore", Quick: 6000, Thorough: 120000, RunWall: 120 * time.Second,
 		Variants: []variant{{Scenario: "c08", Weight: 1}},
 		Real:     fullStackReal,
 		Stub:     append([]string{netStub, "server -> scripted peer speaking the wire protocol through an independent reference codec (verifsim/refcodec)"}, commonStub...),
-		Rule:     "one case = one simulated run: 1-8 concurrent callers x 1-5 calls with unique payloads through 1-3 proxy objects for one servant (direct endpoint, or in a quarter of the runs a registry that delists an endpoint under waiting callers), optionally with a slow push callback; the scripted server answers each request by a tape-drawn plan (immediate, delayed, duplicated, stray unused id first, id-0 push frame first, close notification first, around the deadline, late, replay after completion), reads fragmented and deliveries delayed per tape, id counter preset near MaxInt32/-1 in some runs; distinct = distinct (event-log hash, switch trace hash); non-trivial = at least one preemption, stall or fired fault",
+		Rule:     "one case = one simulated run: 1-8 concurrent callers x 1-5 calls with unique payloads through 1-3 proxy objects for one servant (direct endpoint, or in a quarter of the runs a registry that delists an endpoint under waiting callers), optionally with a slow push callback; the scripted server answers each request by a tape-drawn plan (immediate, delayed, duplicated, stray unused id first, id-0 push frame first, close notification first, split across a pause, around the deadline, late, replay after completion), reads fragmented and deliveries delayed per tape, id counter preset near MaxInt32/-1 in some runs; distinct = distinct (event-log hash, switch trace hash); non-trivial = at least one preemption, stall or fired fault",
 	},
 	{
 		ID: "C09", Binary: "simcore", Quick: 6000, Thorough: 120000, RunWall: 120 * time.Second,
@@ -118,14 +118,14 @@ var props = []*prop{
 		Variants: []variant{{Scenario: "c19", Weight: 4}, {Scenario: "c19s", Weight: 1}},
 		Real:     []string{"tars/util/gpool (instrumented from the working tree)", "every fifth run: tars/transport TarsServer + tcpHandler handing requests to the pool (MaxInvoke 1-4, queue capacity 1-1000)"},
 		Stub:     commonStub,
-		Rule:     "one case = one simulated run: tape-drawn pool size 1-4, queue capacity 0-4, 1-3 submitters, 1-12 jobs with drawn durations, release none/idle/busy, under a tape-drawn schedule; every fifth run instead drives the pool through a real TarsServer (MaxInvoke 1-4, small queue, 1-3 raw clients sending bursts of requests with drawn handler durations) and checks the bound and exactly-once on the invocations; distinct = distinct (event-log hash, context-switch trace hash); non-trivial = at least one preemption, stall or fired fault",
+		Rule:     "one case = one simulated run: tape-drawn pool size 1-4, queue capacity 0-4, 1-3 submitters, 1-12 jobs with drawn durations, release none/idle/busy, under a tape-drawn schedule; every fifth run instead drives the pool through a real TarsServer (MaxInvoke 1-4, small queue, 1-3 raw clients sending bursts of requests with drawn handler durations over TCP or UDP, a third of the TCP runs with a graceful Shutdown while requests are queued) and checks the bound and exactly-once on the invocations of every request the server read; distinct = distinct (event-log hash, context-switch trace hash); non-trivial = at least one preemption, stall or fired fault",
 	},
 	{
 		ID: "C20", Binary: "simcore", Quick: 5000, Thorough: 100000, RunWall: 60 * time.Second,
 		Variants: []variant{{Scenario: "c20", Weight: 1}},
 		Real:     []string{"tars/util/rogger (instrumented; queue and flusher recreated inside the bubble by an overlay shim)", "tars.CheckPanic (panic-exit variant)"},
 		Stub:     append([]string{"LogWriter -> recording writer", "os.Exit -> simrt.Exit (records and ends the run)"}, commonStub...),
-		Rule:     "one case = one simulated run: 1-4 logging goroutines x 1-6 entries through WriteLog/Debugf/Info/Trace, 1-2 writers (a logger may be given another writer after a drawn number of calls), queue capacity 1-10000, flush (or panic-triggered exit, with one or two panicking goroutines) after a drawn number of returned log calls, under a tape-drawn schedule incl. the case order of every select; distinct = distinct (event-log hash, switch trace hash); non-trivial = at least one preemption or fired fault",
+		Rule:     "one case = one simulated run: 1-4 logging goroutines x 1-6 entries through WriteLog/Debugf/Info/Trace, 1-2 writers (a logger may be given another writer after a drawn number of calls; in some runs a size-rolling file writer whose files are read back), queue capacity 1-10000, flush (or panic-triggered exit, with one or two panicking goroutines) after a drawn number of returned log calls, under a tape-drawn schedule incl. the case order of every select; distinct = distinct (event-log hash, switch trace hash); non-trivial = at least one preemption or fired fault",
 	},
 }
 
